@@ -14,9 +14,10 @@ import GmqttVerif.Proofs.Codec.Size
   oracle `oracle_codec`), and the property is re-checked on the implementation's outputs against an independent
   MQTT codec (vlib/props/c06.py).
 
-  The model mirrors the code *with the proposed fixes* for F21, F22, F23, F25, F26, N5, N7 (findings/c06-*.md);
-  the `Orig.*` definitions keep the unchanged code where a fix touches it, and the `…_orig_…` theorems below are
-  the machine-checked witnesses that the unchanged code violates the property.
+  The model mirrors the code of /repo *after* the fixes for F21, F22, F23, F25, F26, N5, N7 (findings/c06-*.md, all
+  committed as `fix:` commits); the `Orig.*` definitions keep the code as it was found where a fix touches it, and the
+  `…_orig_violated` theorems below are the machine-checked witnesses that the code as found violated the property.
+  F24 (allocation of the declared Remaining Length) is recorded, not fixed: `alloc_proportional_violated`.
 
   Totality / "never hangs" is by construction: every model function is a total Lean function (structural
   recursion, or well-founded recursion on the length of the unread input).
@@ -168,6 +169,15 @@ theorem props_reencode_stable (t : Option Nat) (bufr : Bytes) (hb : AllBytes buf
     (h : unpackProps t bufr = .ok (ps, rest)) :
     WFProps t ps ∧ ∀ rest', unpackProps t (packProps (some ps) ++ rest') = .ok (ps, rest') :=
   ⟨(unpackProps_wf t bufr ps rest hb h).1, fun rest' => unpackProps_reencode t bufr ps rest rest' hb h⟩
+
+/-- Facts about the tables of `Model/Codec/PropTable.lean` that the model relies on (the association-list
+    representation writes properties in ascending id order): re-checked whenever the table file is regenerated
+    from `properties.go`. `Properties.Pack` writes in ascending id order; the reader table, the whitelist and the
+    pack order list the same 27 ids; the will properties are among them, ascending. -/
+theorem prop_table_facts :
+    packOrder.Pairwise (· < ·) ∧ propKinds.map (·.1) = packOrder ∧ validProps.map (·.1) = packOrder
+      ∧ willProps.Pairwise (· < ·) ∧ (∀ i ∈ willProps, i ∈ packOrder) ∧ kindOf 0x26 = some .user := by
+  refine ⟨by decide, by decide, by decide, by decide, by decide, by decide⟩
 
 /-- Total and bounded: `Unpack` is a total function; when it succeeds it has consumed the property-length field and
     then exactly `min n available` bytes (`rest = after.drop n`), and the outcome depends only on that window:
